@@ -21,8 +21,35 @@ func (c *Ctx) IsMinSelect(fn *ssa.Function) (bool, string) {
 	}
 	pc := core.NewPathConds(fn)
 	writes := 0
+	var litOK func(p *ssa.Parameter) func(l core.Lit) bool
 	check := func(p *ssa.Parameter, b *ssa.BasicBlock) bool {
-		return pc.Requires(b, func(l core.Lit) bool {
+		return pc.Requires(b, litOK(p))
+	}
+	// selected: v is a parameter shown to be the smaller one at b, or a phi each edge of which
+	// carries a parameter shown to be the smaller one on that edge
+	selected := func(v ssa.Value, b *ssa.BasicBlock) (bool, string) {
+		switch x := core.Strip(v).(type) {
+		case *ssa.Parameter:
+			if !check(x, b) {
+				return false, x.Name()
+			}
+			return true, ""
+		case *ssa.Phi:
+			for i, e := range x.Edges {
+				p, ok := core.Strip(e).(*ssa.Parameter)
+				if !ok {
+					return false, "a value that is not a parameter"
+				}
+				if !pc.EdgeRequires(x.Block().Preds[i], x.Block(), litOK(p)) {
+					return false, p.Name()
+				}
+			}
+			return len(x.Edges) > 0, ""
+		}
+		return false, ""
+	}
+	litOK = func(p *ssa.Parameter) func(l core.Lit) bool {
+		return func(l core.Lit) bool {
 			cmp, rel, ok := core.DecodeCond(l.Cond)
 			if !ok || cmp.B == nil {
 				return false
@@ -40,26 +67,41 @@ func (c *Ctx) IsMinSelect(fn *ssa.Function) (bool, string) {
 				return isP && rel&core.LT == 0 // other >= p
 			}
 			return false
-		})
+		}
+	}
+	isSel := func(v ssa.Value) (int, bool) {
+		switch x := core.Strip(v).(type) {
+		case *ssa.Parameter:
+			return 1, true
+		case *ssa.Phi:
+			for _, e := range x.Edges {
+				if _, ok := core.Strip(e).(*ssa.Parameter); !ok {
+					return 0, false
+				}
+			}
+			return len(x.Edges), len(x.Edges) > 0
+		}
+		return 0, false
 	}
 	for _, b := range fn.Blocks {
 		for _, in := range b.Instrs {
 			switch x := in.(type) {
 			case *ssa.Call:
 				if tn, m := core.BigMethod(&x.Call); tn == "Int" && m == "Set" {
-					if p, ok := core.Strip(core.CallArgs(&x.Call)[1]).(*ssa.Parameter); ok {
-						writes++
-						if !check(p, b) {
-							return false, "copies parameter " + p.Name() + " into the result on a path where it was not shown to be the smaller one"
+					src := core.CallArgs(&x.Call)[1]
+					if n, ok := isSel(src); ok {
+						writes += n
+						if good, who := selected(src, b); !good {
+							return false, "copies parameter " + who + " into the result on a path where it was not shown to be the smaller one"
 						}
 					}
 				}
 			case *ssa.Return:
 				if len(x.Results) == 1 {
-					if p, ok := core.Strip(x.Results[0]).(*ssa.Parameter); ok {
-						writes++
-						if !check(p, b) {
-							return false, "returns parameter " + p.Name() + " on a path where it was not shown to be the smaller one"
+					if n, ok := isSel(x.Results[0]); ok {
+						writes += n
+						if good, who := selected(x.Results[0], b); !good {
+							return false, "returns parameter " + who + " on a path where it was not shown to be the smaller one"
 						}
 					}
 				}
